@@ -160,7 +160,10 @@ def item_src(P, D, name, mode, entry, for_rustc=False, generics="", extra_attrs=
         return "%s struct %s%s %s%s" % (head, name, generics, body, semi)
     # explicit discriminants (rendering only: the documented order is the declaration position)
     disc = any("disc" in v for v in P["variants"])
-    vs = ", ".join("%s A%d %s%s" % (level_attrs_src(v["vcmp"]), i, fields_src(v), (" = %d" % v["disc"]) if "disc" in v else "") for i, v in enumerate(P["variants"]))
+    def disc_src(d, i):
+        # the same value in different spellings (the declaration position decides the order, whatever the discriminant says or looks like)
+        return [" = %d", " = 0x%02x", " = (%d)", " = %d + 0", " = b'\\x%02x'", " = 1 * %d", " = %d as u8", " = { %d }"][(d + i) % 8] % d
+    vs = ", ".join("%s A%d %s%s" % (level_attrs_src(v["vcmp"]), i, fields_src(v), disc_src(v["disc"], i) if "disc" in v else "") for i, v in enumerate(P["variants"]))
     return "%s %senum %s%s { %s }" % (head, "#[repr(u8)] " if disc else "", name, generics, vs)
 
 
